@@ -36,6 +36,22 @@ def claims(TRUST):
             "(the obligations that exposed the header-validation and short-first-chunk panics fixed in /repo).",
             TRUST + "Covers the functions under contract only (disk layer, casblob, validators, tempfile, sha256verifier, BatchUpdateBlobs); most gRPC/HTTP handlers, goroutine and connection lifetimes, and termination are NOT decided.",
             "contract-based deductive verification: automatically generated safety obligations for every instruction of every function under contract"),
+        "C13": (
+            "Deductive proof that the request handler behind each authentication layer is invoked only after the layer's check: gRPC basic-auth interceptors (unary and stream) call the handler only for the health method, for one of "
+            "the six read-only methods when unauthenticated reads are allowed (the key set of readOnlyMethods is fixed by the package initialiser and never updated - checked on the SSA), or with a non-empty user and password whose "
+            "htpasswd entry exists and matches (allowed() is exact); the mTLS interceptors call it only after checkGRPCClientCert returned nil in the same invocation, which implies a non-empty verified chain; HTTP hasValidClientCert "
+            "accepts only a non-empty verified chain and VerifyClientCertHandler's function literal forwards only after it; unauthenticatedReadWrapper's function literal forwards without credentials only GET and HEAD; and startHttpServer "
+            "registers for /status, /metrics and / handlers that carry the authentication wrapper in every configuration with authentication configured (all combinations of htpasswd / LDAP / client CA / allow_unauthenticated_reads / "
+            "idle timeout / endpoint metrics), and hands the client-certificate flags to the cache handler exactly as configured - the obligation that exposed the unauthenticated /status fixed in /repo.",
+            TRUST + "ASSUMED: go-http-auth (JustCheck, CheckAuth, CheckSecret, htpasswd parsing), the grpc peer / TLS state, that the metrics middleware and the listed forwarding closures forward to the handler they wrap "
+            "(authWrapped is an uninterpreted predicate on function values). NOT under contract: the client-certificate checks inside httpCache.CacheHandler, startGrpcServer's choice of interceptors, LDAP.",
+            "contract-based deductive verification: call-site assertions at every invocation of a wrapped handler, ghost check counters, function-value identities with uninterpreted wrapper predicates, SSA check of a constant map"),
+        "C15": (
+            "Deductive proof of the key-space plumbing that is under contract: cache.TransformActionCacheKey returns the key unchanged for an empty instance name and otherwise the hex SHA-256 of key bytes followed by instance bytes "
+            "(abstract byte streams; distinct inputs giving distinct outputs is collision resistance, not proved); grpcServer.UpdateActionResult stores under exactly that key when mangling is on and under the plain hash when it is off, "
+            "in key space AC; FileLocationBase/FileLocation and the index key put the key space into every file name and index key (kind-prefixed lookup keys, ac.v2/cas.v2/raw.v2 directories); diskCache.get serves a zstd read only from the CAS.",
+            TRUST + "NOT under contract: GetActionResult and the HTTP handler's use of the transformed key and of RAW vs AC, so 'identically over HTTP and gRPC' is not decided.",
+            "contract-based deductive verification: functional postcondition over abstract byte streams, call-site assertions on the key passed to the cache"),
         "C20": (
             "Deductive proof that what this build writes and reads is the published v2 layout: header.write emits exactly seven little-endian fields in the published order and widths (magic 0x184D2A50 as uint32, frame size "
             "uint32 = 21 + 8*len(offsets), logical size int64, compression uint8, chunk size uint32, offset count int64, offsets []int64) - call-site obligations on the dynamic type and value of every binary.Write argument; "
